@@ -1202,6 +1202,40 @@ func runC13(c *mon.Ctx) {
 		c13check(k, &c13spec{font: f, fdsel: make([]int, n), desc: fmt.Sprintf("volume-case-%d", sel)})
 	})
 
+	// predefined charsets are never chosen by the writer; the reader's side of that format choice is
+	// observed on fonts written by the independent writer
+	c.Stratum("predefined-charsets", c.N(60, 600), func(k *mon.Case) {
+		r := k.Rng
+		which := 1 + k.Index%3
+		table := [][]int{nil, cffmini.ISOAdobeCharset, cffmini.ExpertCharset, cffmini.ExpertSubsetCharset}[which]
+		n := 1 + r.IntN(len(table))
+		if k.Index%4 == 0 {
+			n = len(table)
+		}
+		w := &cffmini.WFont{FontName: "Predef", PredefCharset: which, OmitCharsetOp: r.IntN(2) == 0, FDs: []cffmini.WFD{{}}}
+		for i := 0; i < n; i++ {
+			w.CharStrings = append(w.CharStrings, []byte{14})
+		}
+		data := w.Bytes()
+		k.Input(data)
+		f, err, panicked := cffReadGuard(k, data)
+		if panicked {
+			return
+		}
+		k.Eval()
+		if err != nil {
+			k.Fail("mismatch", "predefined-charset:rejected", "cff.Read rejects a font with predefined charset %d and %d glyphs: %v", which-1, n, err)
+			return
+		}
+		for gid, g := range f.Glyphs {
+			if want := cffmini.StdStrings[table[gid]]; g.Name != want {
+				k.Fail("mismatch", "predefined-charset:name", "predefined charset %d: glyph %d is %q, TN5176 Appendix C has %q", which-1, gid, g.Name, want)
+				break
+			}
+		}
+		k.Class(fmt.Sprintf("predefined-charset:%d", which-1))
+	})
+
 	// many glyphs (thorough): 65535 glyphs, simple and CID-keyed
 	if c.Thorough() {
 		c.Stratum("huge", 30, func(k *mon.Case) {
@@ -1227,7 +1261,8 @@ func runC13(c *mon.Ctx) {
 		"index-last-offset:255", "index-last-offset:256", "index-last-offset:257", "index-last-offset:65535", "index-last-offset:65536", "index-last-offset:65537",
 		"int-form:1-byte", "int-form:2-byte-positive", "int-form:2-byte-negative", "int-form:3-byte", "int-form:5-byte",
 		"real-form:negative-exponent", "real-form:positive-exponent", "real-form:leading-point", "real-form:with-point", "real-form:integer-digits", "real-form:negative",
-		"width:fractional-default", "width:fractional-nominal", "font:cid", "font:simple", "fds:256", "fds:<256", "header-offsize:1", "header-offsize:2", "header-offsize:3"}
+		"width:fractional-default", "width:fractional-nominal", "font:cid", "font:simple", "fds:256", "fds:<256", "header-offsize:1", "header-offsize:2", "header-offsize:3",
+		"predefined-charset:0", "predefined-charset:1", "predefined-charset:2"}
 	if c.Thorough() {
 		req = append(req, "index-offsize:4", "glyphs:65535", "volume:>16MiB", "header-offsize:4")
 	}
